@@ -51,15 +51,28 @@ func replayProof(c *vlib.Ctx) {
 	var f struct {
 		What string `json:"what"`
 		Case struct {
+			Part                             string
 			Version, Era, Leaves, Challenged int
 			Size, TaxH, ProofH               uint64
 			Proof                            string
 		} `json:"case"`
 	}
+	if err := json.Unmarshal(b, &f); err == nil && f.Case.Part == "sectors" {
+		fmt.Printf("replaying the sector-proof scenarios; required: %s must not happen\n", f.What)
+		sectorProofs(c)
+		if c.NViolations() == 0 {
+			fmt.Println("observed: the saved case no longer violates the property on this tree")
+		}
+		return
+	}
 	if err := json.Unmarshal(b, &f); err != nil || f.Case.Leaves == 0 {
 		c.Fatal("replay file holds neither a behaviour nor a storage-proof case")
 	}
-	only = &f.Case
+	only = &struct {
+		Version, Era, Leaves, Challenged int
+		Size, TaxH, ProofH               uint64
+		Proof                            string
+	}{f.Case.Version, f.Case.Era, f.Case.Leaves, f.Case.Challenged, f.Case.Size, f.Case.TaxH, f.Case.ProofH, f.Case.Proof}
 	fmt.Printf("replaying storage-proof case %+v; required: %s must not happen\n", f.Case, f.What)
 	proofs(c)
 	if c.NViolations() == 0 {
